@@ -69,6 +69,7 @@ type Exec struct {
 	curInstr ssa.Instruction
 	opaquePtr map[*Cell]*Term
 	guardOrd map[ssa.Instruction]string
+	lemmas []*LemmaInst
 	fresh map[string]bool
 }
 
@@ -114,7 +115,7 @@ func (x *Exec) oblige(st *State, kind, label string, goal *Term, clause string) 
 		ob.Trivial++
 		return
 	}
-	ob.Queries = append(ob.Queries, &Query{U: x.prog.U, Lines: st.allLines(), Goal: goal, Reveal: x.reveal()})
+	ob.Queries = append(ob.Queries, &Query{U: x.prog.U, Lines: st.allLines(), Goal: goal, Reveal: x.reveal(), Lemmas: x.lemmas})
 	ob.Traces = append(ob.Traces, append([]string{}, st.trace...))
 	st.assume(goal, "asserted: "+name)
 }
@@ -740,6 +741,13 @@ func (x *Exec) run() {
 	}
 	x.entry = st.clone()
 	if x.fc != nil {
+		for _, ln := range x.fc.Uses {
+			li, err := x.prog.LemmaStatement(ln)
+			if err != nil {
+				x.unsupported("%v", err)
+			}
+			x.lemmas = append(x.lemmas, li)
+		}
 		ctx := x.ctxFor(st, x.entry, nil)
 		for _, c := range x.fc.Requires {
 			t := x.evalBool(ctx, c)
